@@ -7,7 +7,7 @@
    parked thread a Signal / channel send wakes. *)
 From Coq Require Import List Arith NArith ZArith Bool.
 From GoMC Require Import Model.C20_syntax Gen.Queue Model.C20 Proofs.C20 Proofs.C20_fifo Proofs.C20_ll Proofs.C20_ch
-  Proofs.C20_plist Proofs.C20_pool Proofs.C20_top.
+  Proofs.C20_plist Proofs.C20_pool Proofs.C20_term Proofs.C20_top.
 Import ListNotations.
 
 (* ---------------------------------------------------------------- the translated skeletons are the proved ones *)
@@ -62,6 +62,13 @@ Proof. exact top_ll_no_deadlock. Qed.
 Theorem C20_closed_terminates : forall n sc s, reachable ll_progs n sc s -> stuck ll_progs s -> closed s = true ->
   forall i t, nth_error (thr s) i = Some t -> finished t = true \/ isP t = true.
 Proof. exact top_ll_closed_terminates. Qed.
+
+(* no livelock either: every interleaving is finite, with an explicit bound on the number of steps
+   (15 per Push, 9 per Pull, 6 + 8 * #threads per Close); so a state where nobody can move IS reached *)
+Theorem C20_terminates : forall n sc k s, reachN ll_progs (init n sc) k s -> k + phi s <= step_bound sc.
+Proof. exact top_ll_terminates. Qed.
+Theorem C20_reach_counted : forall n sc s, reachable ll_progs n sc s -> exists k, reachN ll_progs (init n sc) k s.
+Proof. exact top_ll_counted. Qed.
 
 (* ---------------------------------------------------------------- ChannelQueue *)
 Theorem C20_ch_exactly_once : forall n sc s a, reachable ch_progs n sc s ->
@@ -131,6 +138,8 @@ Proof.
   split; [apply drives_reachable|]. split; [|vm_compute; auto].
   intros i c. destruct i as [|[|[|[|i]]]]; vm_compute; reflexivity.
 Qed.
+Example C20_ex_bound : step_bound ex_scripts = 63.
+Proof. reflexivity. Qed.
 (* a stuck state with a parked consumer: the queue is empty and open *)
 Definition ex_parked : state := drives ll_progs [(50,0,0)] (init 0 [[OPull]]).
 Example C20_ex_parked : reachable ll_progs 0 [[OPull]] ex_parked /\ stuck ll_progs ex_parked /\
@@ -173,6 +182,8 @@ Print Assumptions C20_ll_results.
 Print Assumptions C20_no_lost_wakeup.
 Print Assumptions C20_no_deadlock.
 Print Assumptions C20_closed_terminates.
+Print Assumptions C20_terminates.
+Print Assumptions C20_reach_counted.
 Print Assumptions C20_ch_exactly_once.
 Print Assumptions C20_ch_close.
 Print Assumptions C20_ch_results.
